@@ -7,7 +7,7 @@
     columns of that type with the matching nullability.  "Import emitted iff
     used" and renames are decided on the emitted package per case (the import
     heuristics are prefix tests on type strings: see known_findings.json). *)
-From Verif Require Import Model.GoTypes Proofs.OverrideFacts Judge.J15.
+From Verif Require Import Model.GoTypes Model.GoEnums Proofs.OverrideFacts Proofs.GoEnumFacts Judge.J15.
 Open Scope string_scope.
 Open Scope list_scope.
 
@@ -38,3 +38,22 @@ Example C15_example :
   /\ go_type_ov [o] PostgreSQL pg_initial (Some ("", "s1", "accounts")) "id" "uuid" true false false = "uuid.UUID"
   /\ go_type_ov [o] PostgreSQL pg_initial (Some ("", "", "other")) "id" "uuid" true false false = "uuid.UUID".
 Proof. vm_compute. repeat split. Qed.
+
+(** ** renames and generated enum types.  The declaration of an enum type
+    (result.go buildEnums, Model/GoEnums.v) and every reference to it
+    (postgresType, Model/GoTypes.v) hand StructName the same key, so for EVERY
+    rename map the Go type of a column of a user-defined type is the name of a
+    declared enum type (or the string form of a composite type, or interface{}):
+    a rename can never make a field mention a type the package does not declare. *)
+Theorem C15_enum_reference_declared_partial : forall rn c dt nn arr,
+  lookup_entry pg_type_table dt = None ->
+  postgres_type_r rn c dt nn arr = "interface{}"
+  \/ In (postgres_type_r rn c dt nn arr) (map ge_name (build_enums rn c))
+  \/ postgres_type_r rn c dt nn arr = (if nn || arr then "string" else "sql.NullString").
+Proof. exact go_type_of_enum_column_declared. Qed.
+Print Assumptions C15_enum_reference_declared_partial.
+
+Theorem C15_enum_name_key : forall rn c sname n,
+  enum_go_name_r rn c sname n = struct_name_rn rn (enum_db_name c sname n).
+Proof. exact enum_go_name_is_decl. Qed.
+Print Assumptions C15_enum_name_key.
